@@ -5,13 +5,17 @@
      "never Panic" for ALL byte strings (each Rust +, -, *, %, index, slice, with_capacity that can
      panic in the debug profile is an explicit checked operation of the model), and the loop's
      termination measure (fuel that is never exhausted).
-   Where the faithful model refutes totality the file holds the `_refuted` witness and the
-   `_outside_known` theorem with the exact class.
+   The sites where the earlier model REFUTED totality (time-index capacity, sketch-track count
+   multiplication, top_k + cursor, top_k * 10; findings F-C22-1..4, and -8, -9, -11) have been
+   repaired in /repo; the theorems below are about the repaired code and are unconditional.
+   Not repaired and outside every model here: Tantivy's decoders on damaged segment bytes
+   (F-C22-6, F-C22-7: test only).
    Partial overall: serde / Tantivy / zstd / HNSW internals, doctor's rebuild logic and the
    search pipeline beyond cursor arithmetic are covered by the child-process test only. *)
-From MV Require Import Base.Prelude Model.Footer Model.Header Model.Bincode Model.Toc Model.TimeIndex
-  Model.Sketch Model.SearchPage Model.Query Model.OpenSeq
-  Proofs.HeaderProofs Proofs.TimeIndexProofs Proofs.QueryProofs Proofs.OpenSeqProofs.
+From MV Require Import Base.Prelude Model.Footer Model.Header Model.Bincode Model.Toc
+  Model.SearchPage Model.Query Model.OpenSeq
+  Proofs.HeaderProofs Proofs.QueryProofs Proofs.OpenSeqProofs.
+From MV Require Model.Sketch.
 Local Open Scope N_scope.
 
 (* ---------------------------------------------------------------- header *)
@@ -59,31 +63,43 @@ Theorem C22_wal_scan_terminates :
 Proof. exact scan_records_terminates. Qed.
 Print Assumptions C22_wal_scan_terminates.
 
+(* open_internal as repaired by 03a10a9: the header's wal_offset is now ARBITRARY (no bound needed:
+   the region check rejects what does not fit the file before anything is read) *)
 Theorem C22_wal_open_no_panic :
   forall (H : bytes -> bytes) file offset size ckpt_pos ckpt_seq,
-    bytes_ok file = true -> N.of_nat (length file) < 2 ^ 63 -> offset < 2 ^ 64 ->
+    bytes_ok file = true -> N.of_nat (length file) < 2 ^ 63 ->
     (forall s, wal_open_chk H file offset size ckpt_pos ckpt_seq <> Panic s) /\
     wal_open_chk H file offset size ckpt_pos ckpt_seq <> Err E_FUEL.
 Proof. intros. split; [apply wal_open_chk_no_panic; assumption | apply wal_open_chk_fuel]. Qed.
 Print Assumptions C22_wal_open_no_panic.
 
-(* ---------------------------------------------------------------- time index (model and proofs of C30) *)
-(* measure: the declared count, bounded by the bytes left (read_exact fails at EOF) *)
-Definition ti_witness : bytes := TIME_INDEX_MAGIC ++ le_encode 8 (2 ^ 59).
-Theorem C22_time_index_total_refuted :
-  exists file pos len s, read_track file pos len = Panic s.
-Proof. exists ti_witness, 0%nat, (12 + 16 * 2 ^ 59), P_TI_CAPACITY. vm_compute. reflexivity. Qed.
-Print Assumptions C22_time_index_total_refuted.
+(* an accepted log region lies inside the file (so the sentinel write / doctor's zeroing cannot
+   extend it: finding F-C22-8, repaired) *)
+Theorem C22_wal_open_region_inside_file :
+  forall (H : bytes -> bytes) file offset size ckpt_pos ckpt_seq r,
+    wal_open_chk H file offset size ckpt_pos ckpt_seq = Ok r ->
+    size <> 0 /\ offset + size <= N.of_nat (length file).
+Proof. exact wal_open_chk_region_inside. Qed.
+Print Assumptions C22_wal_open_region_inside_file.
 
-Theorem C22_time_index_outside_known :
-  forall file pos len, ti_capacity_class file pos len = false -> forall s, read_track file pos len <> Panic s.
-Proof. exact read_track_no_panic_outside. Qed.
-Print Assumptions C22_time_index_outside_known.
+(* ---------------------------------------------------------------- time index read_track (repaired: b6c8721) *)
+(* measure: the declared count, bounded by the bytes left (read_exact fails at EOF).
+   The allocator is an oracle (any function): try_reserve_exact turns its refusal into an error. *)
+Theorem C22_time_index_read_total :
+  forall (alloc_ok : N -> bool) file offset len s, ti_read_track alloc_ok file offset len <> Panic s.
+Proof. exact ti_read_track_no_panic. Qed.
+Print Assumptions C22_time_index_read_total.
 
-Theorem C22_time_index_class_exact :
-  forall file pos len, (exists s, read_track file pos len = Panic s) <-> ti_capacity_class file pos len = true.
-Proof. exact read_track_panic_iff. Qed.
-Print Assumptions C22_time_index_class_exact.
+(* the former panic class (F-C22-1 / F-C30-1) is now exactly the error "entry count too large" *)
+Theorem C22_time_index_capacity_class_is_error :
+  forall (alloc_ok : N -> bool) file offset len,
+    let avail := skipn offset file in
+    (12 <= length avail)%nat -> firstn 4 avail = TI_MAGIC ->
+    let count := le_decode (slice avail 4 8) in
+    count * 16 < 2 ^ 64 -> len = 12 + count * 16 -> 2 ^ 63 <= count * 16 ->
+    ti_read_track alloc_ok file offset len = Err E_TI_TOO_LARGE.
+Proof. exact ti_read_track_capacity_class_is_error. Qed.
+Print Assumptions C22_time_index_capacity_class_is_error.
 
 (* ---------------------------------------------------------------- bincode / TOC *)
 (* measure: the schema (structural) and, per vector / map, the declared length, which is checked
@@ -126,23 +142,26 @@ Theorem C22_nonoverlap_no_panic : forall frames file_len s, ensure_non_overlappi
 Proof. exact ensure_non_overlapping_no_panic. Qed.
 Print Assumptions C22_nonoverlap_no_panic.
 
-(* ---------------------------------------------------------------- sketch track (model of C39) *)
+(* ---------------------------------------------------------------- sketch track read (repaired: bc37f0b) *)
 (* measure: entry_count, bounded by the bytes left *)
-Definition sketch_witness : bytes := SKETCH_TRACK_MAGIC ++ le_encode 2 1 ++ le_encode 2 32 ++ le_encode 8 (2 ^ 60) ++ repeat 0 8.
-Theorem C22_sketch_read_total_refuted :
-  exists file offset len s, read_sketch_track file offset len = Panic s.
-Proof. exists sketch_witness, 0, 24, PANIC_MUL_OVERFLOW. vm_compute. reflexivity. Qed.
-Print Assumptions C22_sketch_read_total_refuted.
+Theorem C22_sketch_read_total :
+  forall file offset len s, read_sketch_track file offset len <> Panic s.
+Proof. exact read_sketch_track_no_panic. Qed.
+Print Assumptions C22_sketch_read_total.
 
-Theorem C22_sketch_read_outside_known :
-  forall file offset len, sketch_mul_class file offset = false -> forall s, read_sketch_track file offset len <> Panic s.
-Proof. exact read_sketch_track_no_panic_outside. Qed.
-Print Assumptions C22_sketch_read_outside_known.
-
-Theorem C22_sketch_read_class_exact :
-  forall file offset len, (exists s, read_sketch_track file offset len = Panic s) <-> sketch_mul_class file offset = true.
-Proof. exact read_sketch_track_panic_iff. Qed.
-Print Assumptions C22_sketch_read_class_exact.
+(* the former panic class (F-C22-2) is now the error "entry count overflows" *)
+Theorem C22_sketch_count_overflow_is_error :
+  forall file offset len,
+    offset <= N.of_nat (length file) ->
+    let r := skipn (N.to_nat offset) file in
+    (Sketch.SKETCH_HEADER_SIZE <= length r)%nat ->
+    let hb := firstn Sketch.SKETCH_HEADER_SIZE r in
+    bytes_eqb (slice hb 0 4) Sketch.SKETCH_TRACK_MAGIC = true ->
+    Sketch.variant_of_size (Sketch.u16_at hb 6) <> None ->
+    2 ^ 64 <= N.of_nat Sketch.SKETCH_HEADER_SIZE + Sketch.u64_at hb 8 * Sketch.u16_at hb 6 ->
+    read_sketch_track file offset len = Err E_SK_OVERFLOW.
+Proof. exact read_sketch_track_overflow_is_error. Qed.
+Print Assumptions C22_sketch_count_overflow_is_error.
 
 (* ---------------------------------------------------------------- query text (model and proofs of C32) *)
 (* measure: |text| for the lexer, 4|tokens|+4 for the parser (depth-limited since 932224c) *)
@@ -157,27 +176,28 @@ Theorem C22_parse_cursor_no_panic : forall c total s, parse_cursor c total <> Pa
 Proof. exact parse_cursor_no_panic. Qed.
 Print Assumptions C22_parse_cursor_no_panic.
 
-(* `request.top_k.max(1) + offset_hint` (search/tantivy.rs) *)
-Theorem C22_doc_limit_total_refuted :
-  exists top_k hint flt s, doc_limit top_k hint flt = Panic s.
-Proof. exists 1, 18446744073709551615, None, 1. vm_compute. reflexivity. Qed.
-Print Assumptions C22_doc_limit_total_refuted.
+(* the sizing arithmetic of search as repaired by 9b4da04 / 51f7ee1 is saturating: total
+   functions.  Stated: every value fits a usize, the collector limit is never 0 (Tantivy panics
+   on 0) and never above the number of indexed documents (Tantivy allocates 2 * limit up front:
+   F-C22-9), the recency age never leaves i64 (F-C22-11). *)
+Theorem C22_doc_limit_in_range :
+  forall top_k hint flt, (forall f, flt = Some f -> f <= USIZE_LAST) -> 1 <= search_doc_limit top_k hint flt <= USIZE_LAST.
+Proof. exact search_doc_limit_in_range. Qed.
+Print Assumptions C22_doc_limit_in_range.
 
-Theorem C22_doc_limit_outside_known :
-  forall top_k hint flt, N.max top_k 1 + hint <= USIZE_MAX -> forall s, doc_limit top_k hint flt <> Panic s.
-Proof. intros top_k hint flt Hle s Hp. assert (E : USIZE_MAX < N.max top_k 1 + hint) by (apply (doc_limit_panic_iff top_k hint flt); exists s; exact Hp). apply N.lt_nge in E. apply E. exact Hle. Qed.
-Print Assumptions C22_doc_limit_outside_known.
+Theorem C22_sketch_candidates_in_range : forall top_k, 500 <= sketch_max_candidates top_k <= USIZE_LAST.
+Proof. exact sketch_max_candidates_in_range. Qed.
+Print Assumptions C22_sketch_candidates_in_range.
 
-(* `(params.top_k * 10).max(500)` (search/mod.rs, sketch pre-filter) *)
-Theorem C22_sketch_candidates_total_refuted :
-  exists top_k s, sketch_max_candidates top_k = Panic s.
-Proof. exists 18446744073709551615, P_MUL. vm_compute. reflexivity. Qed.
-Print Assumptions C22_sketch_candidates_total_refuted.
+Theorem C22_collector_limit_bounded :
+  forall limit index_docs,
+    1 <= collector_limit limit index_docs <= N.max index_docs 1 /\ collector_limit limit index_docs <= N.max limit 1.
+Proof. exact collector_limit_bounded. Qed.
+Print Assumptions C22_collector_limit_bounded.
 
-Theorem C22_sketch_candidates_outside_known :
-  forall top_k, top_k * 10 < 2 ^ 64 -> forall s, sketch_max_candidates top_k <> Panic s.
-Proof. intros top_k Hlt s Hp. assert (E : 2 ^ 64 <= top_k * 10) by (apply (sketch_max_candidates_panic_iff top_k); exists s; exact Hp). apply N.le_ngt in E. apply E. exact Hlt. Qed.
-Print Assumptions C22_sketch_candidates_outside_known.
+Theorem C22_recency_age_in_range : forall max_ts ts, (0 <= recency_age max_ts ts <= 2 ^ 63 - 1)%Z.
+Proof. exact recency_age_in_range. Qed.
+Print Assumptions C22_recency_age_in_range.
 
 (* ---------------------------------------------------------------- encrypted capsule header *)
 Theorem C22_mv2e_decode_no_panic : forall b s, mv2e_decode b <> Panic s.
@@ -203,10 +223,20 @@ Definition wal_sample : bytes := repeat 7 10 ++ rec_img 5 [1; 2; 3] ++ rec_img 6
 
 Example C22_wal_nonvacuous :
   bytes_ok wal_sample = true /\ N.of_nat (length wal_sample) < 2 ^ 63 /\
-  wal_open_chk toyH wal_sample 10 200 7 5 = Ok (49, 6, 7) /\
+  wal_open_chk toyH wal_sample 10 148 7 5 = Ok (49, 6, 7) /\
   wal_open_chk toyH wal_sample 10 99 0 0 = Err E_WAL_LEN /\
-  wal_open_chk toyH wal_sample 150 200 0 0 = Err E_IO /\
-  wal_open_chk toyH wal_sample 18446744073709551615 200 0 0 = Err E_IO.
+  wal_open_chk toyH wal_sample 10 149 0 0 = Err E_WAL_REGION /\
+  wal_open_chk toyH wal_sample 150 8 0 0 = Ok (0, 0, 0) /\
+  wal_open_chk toyH wal_sample 18446744073709551615 200 0 0 = Err E_WAL_REGION /\
+  (* the former panic / abort inputs, now errors or clamped values *)
+  ti_read_track (fun _ => true) (TI_MAGIC ++ le_encode 8 (2 ^ 59)) 0 (12 + 16 * 2 ^ 59) = Err E_TI_TOO_LARGE /\
+  ti_read_track (fun _ => false) (TI_MAGIC ++ le_encode 8 1 ++ repeat 0 16) 0 28 = Err E_TI_TOO_LARGE /\
+  ti_read_track (fun _ => true) (TI_MAGIC ++ le_encode 8 1 ++ repeat 0 16) 0 28 = Ok [(0%Z, 0)] /\
+  read_sketch_track (Sketch.SKETCH_TRACK_MAGIC ++ le_encode 2 1 ++ le_encode 2 32 ++ le_encode 8 (2 ^ 60) ++ repeat 0 8) 0 24 = Err E_SK_OVERFLOW /\
+  search_doc_limit 1 18446744073709551615 None = 18446744073709551615 /\
+  sketch_max_candidates 18446744073709551615 = 18446744073709551615 /\
+  collector_limit 18446744073709551615 8 = 8 /\ collector_limit 5 0 = 1 /\
+  recency_age 1700000000 (- 2 ^ 63) = (2 ^ 63 - 1)%Z.
 Proof. vm_compute. repeat split; try reflexivity. Qed.
 
 (* read_toc on a file whose tail is a 24-byte TOC prefix (version 1, no segments, no frames) and
